@@ -1502,6 +1502,8 @@ class GtkDocCommentBlockParser(object):
             return None
 
         # Check for the end of the comment block.
+        end_line = None
+        end_offset = 0
         result = COMMENT_BLOCK_END_RE.match(comment_lines[-1])
         if result:
             code_after = result.group('code')
@@ -1518,6 +1520,10 @@ class GtkDocCommentBlockParser(object):
                      'not be preceded by comment text:',
                      position, None, result.end('comment'), comment_lines[-1])
 
+                # Remember the source line and the column at which the text starts in it:
+                # diagnostics about that text quote the source line.
+                end_line = comment_lines[-1]
+                end_offset = result.start('comment')
                 comment_lines[-1] = comment
             else:
                 del comment_lines[-1]
@@ -1536,7 +1542,7 @@ class GtkDocCommentBlockParser(object):
         current_part = None
         returns_seen = False
 
-        for line in comment_lines:
+        for index, line in enumerate(comment_lines):
             lineno += 1
             position = Position(filename, lineno)
 
@@ -1544,6 +1550,9 @@ class GtkDocCommentBlockParser(object):
             # so we can generate meaningful warnings later on.
             original_line = line
             column_offset = 0
+            if end_line is not None and index == len(comment_lines) - 1:
+                original_line = end_line
+                column_offset = end_offset
 
             # Store indentation level of the comment (before the ' * ')
             result = INDENTATION_RE.match(line)
@@ -1555,9 +1564,9 @@ class GtkDocCommentBlockParser(object):
                 comment = result.group('comment')
                 if comment:
                     error('invalid comment text:',
-                          position, None, result.start('comment'), original_line)
+                          position, None, column_offset + result.start('comment'), original_line)
 
-                column_offset = result.end(0)
+                column_offset += result.end(0)
                 line = line[result.end(0):]
 
             # Store indentation level of the line (after the ' * ').
